@@ -1,4 +1,5 @@
 import Ccp.Proofs.IPVal
+import Ccp.Proofs.IPValCollapse
 /-!
 # C12 — membership between address objects is exactly subnet containment
 
@@ -73,6 +74,90 @@ theorem host_route_in (f : Fam) (y : Obj) (a : Nat) (vy : Valid f y) (ha : a < 2
   rw [(contains4_iff f y _ vy vx).1, network_addresses f y vy a]
   simp only [ofIpLen, vy.len_le, true_and]
 
+/-! ## `collapse_addresses`
+
+`collapseNets f nets` is the model of `ipaddress.collapse_addresses` on a list of networks
+`(network address, prefix length)` (the stdlib routine `_collapse_addresses_internal`: the
+`supernet → net` dict loop followed by the ascending pass that skips covered networks);
+`collapse f objs = collapseNets f (objs.map network)` is `ccp_util.collapse_addresses`, which maps
+every object to `obj.network` first.  `AlignedNet f n`: prefix length at most `w`, address below
+`2^w`, host bits clear.  "`c` is an address of `n`" is `n.1 ≤ c ∧ c ≤ netBcast f n`. -/
+
+/-- **the collapsed networks cover exactly the addresses of the input networks** -/
+theorem collapse_covers (f : Fam) (nets : List Net) (al : ∀ n ∈ nets, AlignedNet f n) (c : Nat) :
+    (∃ n ∈ collapseNets f nets, n.1 ≤ c ∧ c ≤ netBcast f n) ↔
+    (∃ n ∈ nets, n.1 ≤ c ∧ c ≤ netBcast f n) :=
+  (collapseNets_spec f nets al).2.1 c
+
+/-- **the collapsed networks are well formed, ascending and pairwise disjoint**: each one ends
+before the next one (and every later one) starts -/
+theorem collapse_sorted_disjoint (f : Fam) (nets : List Net) (al : ∀ n ∈ nets, AlignedNet f n) :
+    (∀ n ∈ collapseNets f nets, AlignedNet f n) ∧
+    (collapseNets f nets).Pairwise (fun a b => netBcast f a < b.1) ∧
+    (collapseNets f nets).Pairwise (fun a b => a.1 < b.1 ∧
+      ∀ c, ¬ ((a.1 ≤ c ∧ c ≤ netBcast f a) ∧ (b.1 ≤ c ∧ c ≤ netBcast f b))) := by
+  obtain ⟨h1, _, h3, _⟩ := collapseNets_spec f nets al
+  refine ⟨h1, h3, h3.imp ?_⟩
+  intro a b hab
+  have : a.1 ≤ netBcast f a := by unfold netBcast; omega
+  exact ⟨by omega, fun c hc => by omega⟩
+
+/-- **the collapsed networks are the canonical minimal cover**: no two of them have the same
+supernet (so no pair of siblings is left unmerged), none lies inside another, and every well-formed
+network whose addresses are all covered by the input lies inside a single output network — the
+outputs are exactly the maximal networks inside the covered address set -/
+theorem collapse_minimal (f : Fam) (nets : List Net) (al : ∀ n ∈ nets, AlignedNet f n) :
+    (collapseNets f nets).Pairwise (fun a b => supernet f a ≠ supernet f b) ∧
+    (∀ a ∈ collapseNets f nets, ∀ b ∈ collapseNets f nets,
+      (∀ c, (b.1 ≤ c ∧ c ≤ netBcast f b) → (a.1 ≤ c ∧ c ≤ netBcast f a)) → a = b) ∧
+    (∀ q, AlignedNet f q →
+      (∀ c, (q.1 ≤ c ∧ c ≤ netBcast f q) → ∃ n ∈ nets, n.1 ≤ c ∧ c ≤ netBcast f n) →
+      ∃ s ∈ collapseNets f nets, ∀ c, (q.1 ≤ c ∧ c ≤ netBcast f q) → (s.1 ≤ c ∧ c ≤ netBcast f s)) := by
+  obtain ⟨h1, h2, _, h4⟩ := collapseNets_spec f nets al
+  have h3 := (collapse_sorted_disjoint f nets al).2.2
+  refine ⟨h4, ?_, ?_⟩
+  · intro a ha b hb hsub
+    apply Classical.byContradiction
+    intro hne
+    have hd := pairwise_of_ne (R := fun a b : Net => ∀ c, ¬ ((a.1 ≤ c ∧ c ≤ netBcast f a) ∧
+        (b.1 ≤ c ∧ c ≤ netBcast f b)))
+      (fun x y hxy c hc => hxy c ⟨hc.2, hc.1⟩) (h3.imp (fun h => h.2)) a ha b hb hne
+    have hb0 : b.1 ≤ b.1 ∧ b.1 ≤ netBcast f b := by unfold netBcast; omega
+    exact hd b.1 ⟨hsub _ hb0, hb0⟩
+  · intro q alq hcov
+    exact canonical_cover f _ h1 h4 _ q alq rfl (fun c hc => (h2 c).mpr (hcov c hc))
+
+/-- **API level**: `collapse_addresses(objs)` for objects that may have host bits set.  The output
+covers exactly the addresses of the objects' networks (the addresses sharing an object's leading
+`len` bits), and is the well-formed, ascending, disjoint, canonical cover of that set. -/
+theorem collapse_api (f : Fam) (objs : List Obj) (hv : ∀ x ∈ objs, Valid f x) :
+    (∀ c, (∃ n ∈ collapse f objs, n.1 ≤ c ∧ c ≤ netBcast f n) ↔
+      (∃ x ∈ objs, c >>> (f.w - x.len) = x.ip >>> (f.w - x.len))) ∧
+    (∀ n ∈ collapse f objs, AlignedNet f n) ∧
+    (collapse f objs).Pairwise (fun a b => netBcast f a < b.1) ∧
+    (collapse f objs).Pairwise (fun a b => supernet f a ≠ supernet f b) ∧
+    (∀ q, AlignedNet f q →
+      (∀ c, (q.1 ≤ c ∧ c ≤ netBcast f q) → ∃ x ∈ objs, c >>> (f.w - x.len) = x.ip >>> (f.w - x.len)) →
+      ∃ s ∈ collapse f objs, ∀ c, (q.1 ≤ c ∧ c ≤ netBcast f q) → (s.1 ≤ c ∧ c ≤ netBcast f s)) := by
+  have al : ∀ n ∈ objs.map network, AlignedNet f n := by
+    intro n hn
+    obtain ⟨x, hx, rfl⟩ := List.mem_map.mp hn
+    exact aligned_network f x (hv x hx)
+  have tr : ∀ c, (∃ n ∈ objs.map network, n.1 ≤ c ∧ c ≤ netBcast f n) ↔
+      (∃ x ∈ objs, c >>> (f.w - x.len) = x.ip >>> (f.w - x.len)) := by
+    intro c
+    constructor
+    · rintro ⟨n, hn, h⟩
+      obtain ⟨x, hx, rfl⟩ := List.mem_map.mp hn
+      exact ⟨x, hx, (network_addresses f x (hv x hx) c).mp h⟩
+    · rintro ⟨x, hx, h⟩
+      exact ⟨network x, List.mem_map.mpr ⟨x, hx, rfl⟩, (network_addresses f x (hv x hx) c).mpr h⟩
+  have sd := collapse_sorted_disjoint f _ al
+  have mn := collapse_minimal f _ al
+  refine ⟨fun c => (collapse_covers f _ al c).trans (tr c), sd.1, sd.2.1, mn.1, ?_⟩
+  intro q alq hcov
+  exact mn.2.2 q alq (fun c hc => (tr c).mpr (hcov c hc))
+
 /-- the family constants of the generated tables satisfy what the proofs assume -/
 theorem families_ok : v4.Ok ∧ v6.Ok ∧ v4.w = 32 ∧ v6.w = 128 := ⟨v4_ok, v6_ok, by decide, by decide⟩
 
@@ -89,5 +174,19 @@ example : contains4 v4 (ofIpLen v4 0x0a000001 31) (ofIpLen v4 0x0a000000 32) = t
 example : contains4 v4 (ofIpLen v4 0x0a000001 31) (ofIpLen v4 0x0a000002 32) = false := by decide
 example : contains4 v4 (ofIpLen v4 0x0a000001 0) (ofIpLen v4 0xffffffff 32) = true := by decide
 example : contains4 v4 (ofIpLen v4 0x0a000001 24) (ofIpLen v4 0x0a000001 23) = false := by decide
+
+-- non-vacuity: objects with host bits satisfy the hypotheses; on their networks the dict loop merges the
+-- two /25 halves, then 10.0.0.0/24 with 10.0.1.0/24, and the final pass drops the covered host route
+-- (`List.mergeSort` is defined by well-founded recursion and does not reduce under `decide`; the two
+-- stages around it do)
+example : ∀ x ∈ [ofIpLen v4 0x0a000001 25, ofIpLen v4 0x0a000085 25, ofIpLen v4 0x0a000105 24,
+    ofIpLen v4 0x0a000107 32, ofIpLen v4 0xc0000201 32], Valid v4 x := by decide
+example : ([ofIpLen v4 0x0a000001 25, ofIpLen v4 0x0a000085 25, ofIpLen v4 0x0a000105 24,
+    ofIpLen v4 0x0a000107 32, ofIpLen v4 0xc0000201 32].map network)
+    = [(0x0a000000, 25), (0x0a000080, 25), (0x0a000100, 24), (0x0a000107, 32), (0xc0000201, 32)] := by decide
+example : (mergeLoop v4 34 [(0xc0000201, 32), (0x0a000107, 32), (0x0a000100, 24), (0x0a000080, 25),
+    (0x0a000000, 25)] []).map (·.2) = [(0x0a000000, 23), (0x0a000107, 32), (0xc0000201, 32)] := by decide
+example : dropCovered v4 none [(0x0a000000, 23), (0x0a000107, 32), (0xc0000201, 32)]
+    = [(0x0a000000, 23), (0xc0000201, 32)] := by decide
 
 end Ccp.C12
